@@ -14,15 +14,19 @@
     field copy discipline is READ from the regenerated `Gen.cloneLiteral` / `Gen.cloneLater`;
     `MergeClause` of Where/OrderBy/GroupBy/Returning: make+copy vs `append(old,…)` is READ from the
     regenerated `Gen.mergeFacts`.
-  * `whereBuild` = clause/where.go `Where.Build` (And-unpack, the in-place swap, `buildExprs`);
-    `buildCondGroup` = statement.go `BuildCondition` case `*DB` (the `where.Exprs[0] = AndConditions(…)`
-    rewrite on the ARGUMENT's array).
+  * `whereBuild` = clause/where.go `Where.Build` (And-unpack, the swap, `buildExprs`);
+    `buildCondGroup` = statement.go `BuildCondition` case `*DB` (pending scopes of the ARGUMENT, the
+    `where.Exprs[0] = AndConditions(…)` rewrite); `Select(callerSlice, …)`.  Whether these four places write
+    IN PLACE into an array they share with a reusable handle / the caller, or work on a copy, is READ from
+    the regenerated `Gen.groupArmElemAssigns`, `Gen.groupArmScopesRecv`, `Gen.whereBuildElemAssigns`,
+    `Gen.selectArmStoresArg` (`AliasCfg`).
   * `History`: ops over a growing list of handles; `run` executes it and collects one rendering per
     `render` op.
 -/
 import GormModel.Core.Facts
 import GormModel.Gen.CloneFacts
 import GormModel.Gen.Misc
+import GormModel.Gen.AliasFacts
 namespace Gorm.Heap
 
 /-! ## slices and heap -/
@@ -158,12 +162,28 @@ deriving Repr, DecidableEq
 def genMerge : MergeCfg :=
   { wher := mergeKind "Where", order := mergeKind "OrderBy", group := mergeKind "GroupBy", ret := mergeKind "Returning" }
 
+/-- the four places that (on the unchanged tree) write into a slice shared with a reusable handle or with
+    the caller; `true` = the code works on a copy -/
+structure AliasCfg where
+  groupCopies : Bool      -- BuildCondition `case *DB`: no assignment to `where.Exprs[i]` (rewrites a copy)
+  groupInstance : Bool    -- BuildCondition `case *DB`: executeScopes() runs on a copy of the argument, not on `v` itself
+  buildCopies : Bool      -- Where.Build: no assignment to `where.Exprs[i]` (swaps on a copy)
+  selectCopies : Bool     -- Select `case []string`: does not store the caller's slice itself
+deriving Repr, DecidableEq
+
+def genAlias : AliasCfg :=
+  { groupCopies := Gen.groupArmElemAssigns == 0,
+    groupInstance := !(Gen.groupArmScopesRecv.contains "v"),
+    buildCopies := Gen.whereBuildElemAssigns == 0,
+    selectCopies := Gen.selectArmStoresArg == 0 }
+
 structure Cfg where
   cl : CloneCfg
   mg : MergeCfg
+  fx : AliasCfg
 deriving Repr, DecidableEq
 
-def genAll : Cfg := ⟨genCfg, genMerge⟩
+def genAll : Cfg := ⟨genCfg, genMerge, genAlias⟩
 
 /-! ## clone / getInstance / Session -/
 
@@ -261,18 +281,19 @@ def andOf (H : Heap) (s : Slice) : Option Cell :=
   | _ => some (.andc s)
 
 /-- statement.go `BuildCondition`, `case *DB`: `conds := make(0,4)`; the argument's WHERE — with the
-    in-place rewrite `where.Exprs[0] = clause.AndConditions(orConds)` when it is a single Or — is added
-    as `clause.And(where.Exprs...)`, i.e. aliasing the ARGUMENT's array. -/
-def buildCondGroup (H : Heap) (arg : Stmt) : Heap × Slice :=
+    rewrite of a single Or into `clause.AndConditions(orConds)`: IN PLACE (`where.Exprs[0] = …`, the
+    ARGUMENT's array) or on a fresh one-element slice (`copies`) — is added as `clause.And(where.Exprs...)`,
+    i.e. aliasing the array it was read from. -/
+def buildCondGroup (copies : Bool) (H : Heap) (arg : Stmt) : Heap × Slice :=
   match arg.wher with
   | none => alloc H [] 4
   | some w =>
-    let H1 := match readS H w with
-      | [.orc o] => writeAt H w.arr w.off (.andc o)
-      | _ => H
-    match andOf H1 w with
-    | none => alloc H1 [] 4
-    | some c => alloc H1 [c] 4
+    let p : Heap × Slice := match readS H w with
+      | [.orc o] => if copies then alloc H [.andc o] 1 else (writeAt H w.arr w.off (.andc o), w)
+      | _ => (H, w)
+    match andOf p.1 p.2 with
+    | none => alloc p.1 [] 4
+    | some c => alloc p.1 [c] 4
 
 /-- chainable_api.go Where / Or / Not from an already built `conds` slice -/
 def wrapCond (H : Heap) (kind : Nat) (conds : Slice) : Heap × Option Slice :=
@@ -342,19 +363,26 @@ def firstNonOr : List Cell → Nat → Option Nat
   | [], _ => none
   | c :: cs, i => if isSingleOr c then firstNonOr cs (i + 1) else some i
 
-/-- clause/where.go `Where.Build`: And-unpack, the IN-PLACE swap, buildExprs -/
-def whereBuild (fuel : Nat) (H : Heap) (w : Slice) : Heap × List Tok :=
+/-- the list after the swap of elements 0 and `i + 1` -/
+def swapped (cs : List Cell) (i : Nat) : List Cell :=
+  ((cs.set 0 (cs.getD (i + 1) default)).set (i + 1) (cs.getD 0 default))
+
+/-- clause/where.go `Where.Build`: And-unpack, the swap — IN PLACE in the shared array, or
+    (`copies`) on `exprs := make; copy(exprs, where.Exprs)`, a local that dies with the call — buildExprs -/
+def whereBuild (copies : Bool) (fuel : Nat) (H : Heap) (w : Slice) : Heap × List Tok :=
   let w := match readS H w with
     | [.andc s] => s
     | _ => w
   let cs := readS H w
-  let H1 := match firstNonOr cs 0 with
-    | some (i + 1) =>
+  match firstNonOr cs 0 with
+  | some (i + 1) =>
+    if copies then (H, buildExprs fuel H (swapped cs i) .and true)
+    else
       let c0 := cs.getD 0 default
       let ci := cs.getD (i + 1) default
-      writeAt (writeAt H w.arr w.off ci) w.arr (w.off + i + 1) c0
-    | _ => H
-  (H1, buildExprs fuel H1 (readS H1 w) .and true)
+      let H1 := writeAt (writeAt H w.arr w.off ci) w.arr (w.off + i + 1) c0
+      (H1, buildExprs fuel H1 (readS H1 w) .and true)
+  | _ => (H, buildExprs fuel H cs .and true)
 
 def atomsOf (H : Heap) (s : Slice) : List Nat :=
   (readS H s).filterMap (fun c => match c with | .atom n => some n | _ => none)
@@ -416,16 +444,16 @@ def execScopes (m : MergeCfg) (H : Heap) (st : Stmt) : Heap × Stmt :=
 def firstPrep (m : MergeCfg) (fin : Nat) (H : Heap) (st : Stmt) : Heap × Stmt :=
   if fin = 1 then addOrder m (alloc H [.atom 0] 1).1 (addLimit st (some 1) 0) (alloc H [.atom 0] 1).2 else (H, st)
 
-def whereToks (fuel : Nat) (H : Heap) (st : Stmt) : Heap × List Tok :=
+def whereToks (copies : Bool) (fuel : Nat) (H : Heap) (st : Stmt) : Heap × List Tok :=
   match st.wher with
-  | some w => ((whereBuild fuel H w).1, [Tok.whereKw] ++ (whereBuild fuel H w).2)
+  | some w => ((whereBuild copies fuel H w).1, [Tok.whereKw] ++ (whereBuild copies fuel H w).2)
   | none => (H, [])
 
-def groupToks (fuel : Nat) (H : Heap) (st : Stmt) : Heap × List Tok :=
+def groupToks (copies : Bool) (fuel : Nat) (H : Heap) (st : Stmt) : Heap × List Tok :=
   match st.group with
   | some (c, hv) =>
     -- GroupBy.MergeClause: no columns ⇒ clause name "" (the clause is still built: Having only)
-    if hv.len > 0 then ((whereBuild fuel H hv).1, [Tok.groupKw] ++ (atomsOf H c).map Tok.gcol ++ [Tok.havingKw] ++ (whereBuild fuel H hv).2)
+    if hv.len > 0 then ((whereBuild copies fuel H hv).1, [Tok.groupKw] ++ (atomsOf H c).map Tok.gcol ++ [Tok.havingKw] ++ (whereBuild copies fuel H hv).2)
     else (H, [Tok.groupKw] ++ (atomsOf H c).map Tok.gcol)
   | none => (H, [])
 
@@ -458,15 +486,36 @@ def retToks (H : Heap) (st : Stmt) : List Tok :=
 
 /-- executeScopes + the finisher's own chain calls + the build of the statement (callbacks/query.go
     BuildQuerySQL, callbacks/delete.go).  Returns the heap (the swap in Where.Build writes!) and the tokens. -/
-def renderStmt (m : MergeCfg) (fuel : Nat) (H : Heap) (st : Stmt) (fin : Nat) : Heap × List Tok :=
+def renderStmt (m : MergeCfg) (copies : Bool) (fuel : Nat) (H : Heap) (st : Stmt) (fin : Nat) : Heap × List Tok :=
   let p1 := execScopes m H st
   let p2 := firstPrep m fin p1.1 p1.2
-  let w := whereToks fuel p2.1 p2.2
+  let w := whereToks copies fuel p2.1 p2.2
   if fin = 3 then
     (w.1, [Tok.fin fin] ++ (match p2.2.table with | some t => [Tok.table t] | none => []) ++ w.2 ++ retToks w.1 p2.2)
   else
-    let g := groupToks fuel w.1 p2.2
+    let g := groupToks copies fuel w.1 p2.2
     (g.1, [Tok.fin fin] ++ headToks p2.1 p2.2 fin ++ w.2 ++ g.2 ++ tailToks g.1 p2.2 fin)
+
+/-- statement.go `BuildCondition`, `case *DB`, first statement: the ARGUMENT's pending scopes.
+    * `v.executeScopes()` on the argument itself (unchanged tree): a chain instance (clone 0) runs its scopes
+      in place (`scopes = nil`, every scope's `Where` lands in the argument's statement, which the group then
+      reads); a REUSABLE handle (clone 1/2) gets `scopes = nil` written into its own — shared — statement
+      while every `scope(db)` result lands in a derived instance that is thrown away: the group does not see
+      the scopes' conditions and the handle has lost them (`argAfter`).
+    * `v.Session(&Session{}).getInstance().executeScopes()` when scopes are pending (`groupInstance`): the
+      scopes run on a clone of the argument's statement; the argument is untouched.
+    Returns the heap and the statement whose WHERE the group reads. -/
+def groupArgStmt (c : CloneCfg) (m : MergeCfg) (inst : Bool) (H : Heap) (arg : Handle) : Heap × Stmt :=
+  if arg.st.scopes.len = 0 then (H, arg.st)
+  else if inst then
+    let p := cloneStmt c H arg.st
+    execScopes m p.1 p.2
+  else if arg.clone = 0 then execScopes m H arg.st
+  else (H, arg.st)
+
+/-- what using handle `arg` as a group condition leaves behind IN the argument -/
+def argAfter (inst : Bool) (arg : Handle) : Handle :=
+  if inst then arg else { arg with st := { arg.st with scopes := Slice.nil } }
 
 /-- chain method on an instance already obtained from `getInstance` -/
 def chainOn (c : Cfg) (slices : List (List Nat × Nat)) (S : State) (H : Heap) (st : Stmt) : Op → Heap × Stmt
@@ -476,7 +525,8 @@ def chainOn (c : Cfg) (slices : List (List Nat × Nat)) (S : State) (H : Heap) (
      | (H2, some w) => addWhere c.mg H2 st w
      | (H2, none) => (H2, st))
   | .condG kind _ arg =>
-    let (H1, conds) := buildCondGroup H (S.handle arg).st
+    let (H0, ast) := groupArgStmt c.cl c.mg c.fx.groupInstance H (S.handle arg)
+    let (H1, conds) := buildCondGroup c.fx.groupCopies H0 ast
     (match wrapCond H1 kind conds with
      | (H2, some w) => addWhere c.mg H2 st w
      | (H2, none) => (H2, st))
@@ -484,7 +534,10 @@ def chainOn (c : Cfg) (slices : List (List Nat × Nat)) (S : State) (H : Heap) (
   | .orderC _ sl k => addOrder c.mg H st (callerSlice slices sl k)
   | .group _ a => let (H1, s) := alloc H [.atom a] 1; addGroup c.mg H1 st s Slice.nil
   | .having _ a => let (H1, s) := condAtom H a; addGroup c.mg H1 st Slice.nil s
-  | .havingG _ arg => let (H1, s) := buildCondGroup H (S.handle arg).st; addGroup c.mg H1 st Slice.nil s
+  | .havingG _ arg =>
+    let (H0, ast) := groupArgStmt c.cl c.mg c.fx.groupInstance H (S.handle arg)
+    let (H1, s) := buildCondGroup c.fx.groupCopies H0 ast
+    addGroup c.mg H1 st Slice.nil s
   | .ret _ cols => let (H1, s) := alloc H (cols.map .atom) cols.length; addRet c.mg H1 st (some s)
   | .retStar _ => addRet c.mg H st none
   | .limit _ n => (H, addLimit st (some n) 0)
@@ -498,8 +551,10 @@ def chainOn (c : Cfg) (slices : List (List Nat × Nat)) (S : State) (H : Heap) (
        let (H2, s2) := rest.foldl (fun (p : Heap × Slice) b => appendS p.1 p.2 [.atom b]) (H1, s)
        (H2, { st with selects := s2 }))
   | .selectS _ sl k extra =>
-    -- `Selects = v` (the caller's slice) then `append(Selects, arg)` per further argument
-    let (H2, s2) := extra.foldl (fun (p : Heap × Slice) b => appendS p.1 p.2 [.atom b]) (H, callerSlice slices sl k)
+    -- `Selects = v` (the caller's slice itself, or — `selectCopies` — make+copy of it) then
+    -- `append(Selects, arg)` per further argument
+    let p0 := if c.fx.selectCopies then makeCopy H (callerSlice slices sl k) else (H, callerSlice slices sl k)
+    let (H2, s2) := extra.foldl (fun (p : Heap × Slice) b => appendS p.1 p.2 [.atom b]) p0
     (H2, { st with selects := s2 })
   | .omit _ cols => let (H1, s) := alloc H (cols.map .atom) cols.length; (H1, { st with omits := s })
   | .joins _ a => let (H1, s) := appendS H st.joins [.atom a]; (H1, { st with joins := s })
@@ -524,6 +579,14 @@ def Op.args : Op → List Nat
 
 def push (S : State) (H : Heap) (h : Handle) : State := { S with heap := H, env := S.env ++ [h] }
 
+/-- the environment after the op's effect on its ARGUMENT handles (only a group argument with pending
+    scopes on the unchanged tree, see `groupArgStmt`) -/
+def envAfter (c : Cfg) (S : State) (op : Op) : List Handle :=
+  match op with
+  | .condG _ _ a | .havingG _ a =>
+    if a < S.env.length ∧ (S.handle a).st.scopes.len ≠ 0 then S.env.set a (argAfter c.fx.groupInstance (S.handle a)) else S.env
+  | _ => S.env
+
 /-- one op; every op appends exactly one handle to the environment -/
 def step (c : Cfg) (slices : List (List Nat × Nat)) (fuel : Nat) (S : State) (op : Op) : State :=
   let h := S.handle op.src
@@ -537,11 +600,13 @@ def step (c : Cfg) (slices : List (List Nat × Nat)) (fuel : Nat) (S : State) (o
     push S (cloneStmt c.cl g.1 g.2.st).1 ⟨(cloneStmt c.cl g.1 g.2.st).2, if h.clone = 1 then 1 else 2⟩
   | .render _ fin =>
     let g := getInstance c.cl S.heap h
-    { heap := (renderStmt c.mg fuel g.1 g.2.st fin).1, env := S.env ++ [⟨g.2.st, 0⟩],
-      outs := S.outs ++ [(renderStmt c.mg fuel g.1 g.2.st fin).2] }
+    { heap := (renderStmt c.mg c.fx.buildCopies fuel g.1 g.2.st fin).1, env := S.env ++ [⟨g.2.st, 0⟩],
+      outs := S.outs ++ [(renderStmt c.mg c.fx.buildCopies fuel g.1 g.2.st fin).2] }
   | op =>
     let g := getInstance c.cl S.heap h
-    push S (chainOn c slices S g.1 g.2.st op).1 ⟨(chainOn c slices S g.1 g.2.st op).2, 0⟩
+    { heap := (chainOn c slices S g.1 g.2.st op).1,
+      env := envAfter c S op ++ [⟨(chainOn c slices S g.1 g.2.st op).2, 0⟩],
+      outs := S.outs }
 
 structure History where
   slices : List (List Nat × Nat)
